@@ -5,6 +5,7 @@ import (
 	"fmt"
 	"math"
 	"net/http"
+	"strconv"
 	"strings"
 
 	"google.golang.org/protobuf/proto"
@@ -73,8 +74,26 @@ func urlCases(fd protoreflect.FieldDescriptor, thorough bool, isPath bool) []url
 		bads = []string{"abc", "-1", "18446744073709551616", "0x10", "1_0"}
 	case protoreflect.BoolKind:
 		bads = []string{"maybe", "2", "yes"}
-	case protoreflect.FloatKind, protoreflect.DoubleKind:
-		bads = []string{"abc", "1,5", "--1"}
+	case protoreflect.FloatKind:
+		// not a number, and numbers beyond the range of the 32-bit kind
+		bads = []string{"abc", "1,5", "--1", "1e39", "-3.5e38", "4e38", "1e400", "0x1p200"}
+	case protoreflect.DoubleKind:
+		bads = []string{"abc", "1,5", "--1", "1e400", "-1e309"}
+	}
+	// exponent and fraction spellings of representable values
+	switch fd.Kind() {
+	case protoreflect.FloatKind:
+		for _, sp := range [][2]string{{"1e3", "1000"}, {"3.4e38", "3.4e38"}, {"1E-5", "0.00001"}, {".5", "0.5"}, {"-0.25", "-0.25"}} {
+			f, _ := strconv.ParseFloat(sp[1], 32)
+			v := protoreflect.ValueOfFloat32(float32(f))
+			out = append(out, urlCase{label: "valid:spelling:" + sp[0], raw: []string{sp[0]}, want: func(m protoreflect.Message, fd protoreflect.FieldDescriptor) { setOrAppend(m, fd, v) }})
+		}
+	case protoreflect.DoubleKind:
+		for _, sp := range [][2]string{{"1e3", "1000"}, {"1.7e308", "1.7e308"}, {"1E-5", "0.00001"}, {".5", "0.5"}, {"1e39", "1e39"}} {
+			f, _ := strconv.ParseFloat(sp[1], 64)
+			v := protoreflect.ValueOfFloat64(f)
+			out = append(out, urlCase{label: "valid:spelling:" + sp[0], raw: []string{sp[0]}, want: func(m protoreflect.Message, fd protoreflect.FieldDescriptor) { setOrAppend(m, fd, v) }})
+		}
 	}
 	for _, b := range bads {
 		out = append(out, urlCase{label: "malformed:" + b, raw: []string{b}, bad: true})
